@@ -679,7 +679,14 @@ func main() {
 	for b := 0; b < nbulk; b++ {
 		p := &program{name: fmt.Sprintf("bulk%d", b), kind: "plain-main"}
 		for i := 0; i < perBulk; i++ {
-			p.units = append(p.units, genUnit(r.Fork(nextIdx), nextIdx, f.Seed))
+			switch i {
+			case 0: // every bulk program has a call-chain unit and an expression-position unit
+				p.units = append(p.units, chainUnit(r.Fork(nextIdx), nextIdx))
+			case 1:
+				p.units = append(p.units, unitFromTemplate(r.Fork(nextIdx), nextIdx, templateByKind("fmt-expr-position")))
+			default:
+				p.units = append(p.units, genUnit(r.Fork(nextIdx), nextIdx, f.Seed))
+			}
 			nextIdx++
 		}
 		p.mainSrc = plainMain(p)
@@ -1008,7 +1015,14 @@ func replay(f *vh.Flags, o *vh.Out) {
 	for b := 0; b < nbulk; b++ {
 		p := &program{name: fmt.Sprintf("bulk%d", b), kind: "plain-main"}
 		for i := 0; i < perBulk; i++ {
-			p.units = append(p.units, genUnit(r.Fork(nextIdx), nextIdx, f.Seed))
+			switch i {
+			case 0:
+				p.units = append(p.units, chainUnit(r.Fork(nextIdx), nextIdx))
+			case 1:
+				p.units = append(p.units, unitFromTemplate(r.Fork(nextIdx), nextIdx, templateByKind("fmt-expr-position")))
+			default:
+				p.units = append(p.units, genUnit(r.Fork(nextIdx), nextIdx, f.Seed))
+			}
 			nextIdx++
 		}
 		p.mainSrc = plainMain(p)
